@@ -166,6 +166,40 @@ func genEncCasesOpt(g *gen.G, n int, types map[string]reflect.Type, anyPrimsToo 
 	if !anyPrimsToo {
 		return cs
 	}
+	// byte-string fields carved out of ONE backing array (ciphertext||tag as cipher.AEAD.Seal returns it, iv||data, ...): each
+	// field has spare capacity that belongs to the next one; lengths are not multiples of 8 so that every field gets padded
+	for _, name := range typeNames(types) {
+		t := types[name]
+		var idx []int
+		for fi := 0; fi < t.NumField(); fi++ {
+			if t.Field(fi).Type == reflect.TypeOf([]byte(nil)) && t.Field(fi).Tag.Get("kmip") != "" {
+				idx = append(idx, fi)
+			}
+		}
+		if len(idx) < 2 {
+			continue
+		}
+		for rep := 0; rep < 3; rep++ {
+			p := g.NewStruct(t)
+			lens := []int{13, 5, 11, 3, 21, 9}
+			total := 0
+			for i := range idx {
+				total += lens[(i+rep)%len(lens)]
+			}
+			blob := make([]byte, total)
+			for i := range blob {
+				blob[i] = byte(0xa0 + i%0x50)
+			}
+			off := 0
+			for i, fi := range idx {
+				l := lens[(i+rep)%len(lens)]
+				p.Elem().Field(fi).SetBytes(blob[off : off+l])
+				off += l
+			}
+			var top interface{} = p.Interface()
+			cs = append(cs, encCase{typ: name, val: p, top: top, line: render.Top(top)})
+		}
+	}
 	// every primitive Go type the codec knows, in every interface-typed position, whatever the selector announces
 	d1, d2, d3 := 90*time.Second, time.Hour, 1500*time.Millisecond
 	i32, i64, en, bo, st, by, tm := int32(-5), int64(1)<<40, kmip.Enum(7), true, "text", []byte{1, 2, 3}, time.Unix(1000000000, 0)
@@ -205,9 +239,13 @@ func runC02(r *Result, d *drv.Driver, tier string, seed int64, replay string) {
 		cs := genEncCasesOpt(g, n, types, true)
 		var lines []string
 		for i := range cs {
+			before := render.Struct(cs[i].val.Interface())
 			cs[i].real, _, _ = realEncode(cs[i].top)
 			lines = append(lines, "enctop "+cs[i].line)
-			lines = append(lines, "canon "+cs[i].typ+" "+render.Struct(cs[i].val.Interface()))
+			lines = append(lines, "canon "+cs[i].typ+" "+before)
+			if after := render.Struct(cs[i].val.Interface()); after != before {
+				r.find(Finding{Kind: "violation", What: "Encode modified the value it was given (type " + cs[i].typ + ")", Input: map[string]string{"type": cs[i].typ, "value": before}, Expect: before, Actual: after})
+			}
 		}
 		replies, err := d.AskAll(lines)
 		if err != nil {
